@@ -1,6 +1,9 @@
 package textgen
 
-import "strings"
+import (
+	"fmt"
+	"strings"
+)
 
 // Lexemes is the token alphabet of the explicit-state searches over schema TEXT (C10's acceptance search, and the
 // formatter checks run over everything that search finds acceptable).
@@ -55,4 +58,21 @@ func AttributeInterleavings(pairs bool) []string {
 		}
 	}
 	return out
+}
+
+// CompactLarge is a valid schema of n definitions written one per line (the style of testdata/base/lab.bop): longer than
+// a reader buffer for n >= 60, and formatting makes it longer still.
+func CompactLarge(n int) string {
+	var sb strings.Builder
+	for i := 0; i < n; i++ {
+		switch i % 3 {
+		case 0:
+			fmt.Fprintf(&sb, "struct Sc%d { int32 a; string b; array[uint16] c; map[string, guid] d; }\n", i)
+		case 1:
+			fmt.Fprintf(&sb, "[opcode(%d)] message Mc%d { 1 -> Sc%d s; 2 -> date when; 3 -> float64 ratio; }\n", 0x100+i, i, i-1)
+		default:
+			fmt.Fprintf(&sb, "enum Ec%d { A = 1; B = 2; C = %d; }\n", i, i+3)
+		}
+	}
+	return sb.String()
 }
